@@ -964,6 +964,47 @@ class SymStr:
                         out.append((kind, v))
         self.parts = out
 
+    WHITESPACE = [cp for cp in range(0x3100) if chr(cp).isspace()]
+
+    def _strip(self, chars, left, right):
+        if chars is not None:
+            from .engine import Unsupported
+
+            raise Unsupported("str.strip(chars) on a structured string")
+        parts = list(self.parts)
+
+        def side(idx, strip_fn):
+            while parts:
+                p = parts[idx]
+                if isinstance(p, str):
+                    q = strip_fn(p)
+                    if q:
+                        parts[idx] = q
+                        return
+                    parts.pop(idx)
+                elif p[0] == "dec":
+                    return  # digits and '-' are not whitespace
+                else:
+                    if _t(any_of_syms([p[1] == w for w in SymStr.WHITESPACE])):
+                        parts.pop(idx)
+                    else:
+                        return
+
+        if left:
+            side(0, str.lstrip)
+        if right:
+            side(-1, str.rstrip)
+        return SymStr(parts).norm()
+
+    def strip(self, chars=None):
+        return self._strip(chars, True, True)
+
+    def lstrip(self, chars=None):
+        return self._strip(chars, True, False)
+
+    def rstrip(self, chars=None):
+        return self._strip(chars, False, True)
+
     # -- constructors
     @staticmethod
     def dec(v):
